@@ -9,6 +9,7 @@ Supports both protocols on the same port:
 """
 
 import asyncio
+import re
 import time
 from collections.abc import Awaitable, Callable
 from typing import TYPE_CHECKING
@@ -25,6 +26,10 @@ if TYPE_CHECKING:
     from .handler import UploadHandler
 
 logger = get_logger(__name__)
+
+# What a refusing middleware may hand back: one response header - a status that is not
+# a success, a space, a meta on one line (at most 1024 bytes) and CRLF
+_REFUSAL_HEADER = re.compile(r"(1[0-9]|[3-6][0-9]) [^\r\n]*\r\n")
 
 # Connection timeout in seconds
 REQUEST_TIMEOUT = 30.0
@@ -489,11 +494,18 @@ class GeminiServerProtocol(asyncio.Protocol):
 
             if not allow:
                 # Middleware rejected request - send error response
-                if self.transport and error_response:
+                if (
+                    self.transport
+                    and error_response
+                    and _REFUSAL_HEADER.fullmatch(error_response)
+                    and len(error_response.encode("utf-8")) <= 1024 + 5
+                ):
                     self.transport.write(error_response.encode("utf-8"))
                     self.transport.close()
                 else:
-                    # Rejected without a response text: never leave the client unanswered
+                    # Rejected without a response text, or with a text that is not a
+                    # response header: never leave the client unanswered, and never
+                    # put something else than one well-formed response on the wire
                     self._send_error_response(
                         StatusCode.TEMPORARY_FAILURE, "Request rejected"
                     )
@@ -642,9 +654,7 @@ class GeminiServerProtocol(asyncio.Protocol):
                     )
                 )
                 task.add_done_callback(
-                    lambda t: self._handle_middleware_result(
-                        t, titan_request, client_ip
-                    )
+                    lambda t: self._handle_middleware_result(t, titan_request, client_ip)
                 )
             except RuntimeError:
                 # No event loop running: the upload handler could not run either
